@@ -684,13 +684,21 @@ func c17Random(r *Rng) C17Case {
 	if len(defs) > 0 {
 		doc["definitions"] = defs
 	}
+	paramKey, respKey := "Limit", "NotFound"
 	if r.Chance(50) {
 		p := c17Prim(r)
 		p["name"], p["in"] = "limit", "query"
-		doc["parameters"] = map[string]any{"Limit": p}
+		// Swagger 2 keeps parameters, responses and definitions in separate name spaces: the same key may appear in several
+		if len(defNames) > 0 && r.Chance(35) {
+			paramKey = Pick(r, defNames)
+		}
+		doc["parameters"] = map[string]any{paramKey: p}
 	}
 	if r.Chance(50) {
-		doc["responses"] = map[string]any{"NotFound": map[string]any{"description": "nf", "schema": c17Schema(r, 1, defNames)}}
+		if len(defNames) > 0 && r.Chance(35) {
+			respKey = Pick(r, defNames)
+		}
+		doc["responses"] = map[string]any{respKey: map[string]any{"description": "nf", "schema": c17Schema(r, 1, defNames)}}
 	}
 	if r.Chance(60) {
 		sd := map[string]any{}
@@ -743,7 +751,7 @@ func c17Random(r *Rng) C17Case {
 				params = append(params, p)
 			}
 			if _, ok := doc["parameters"]; ok && r.Chance(30) {
-				params = append(params, map[string]any{"$ref": "#/parameters/Limit"})
+				params = append(params, map[string]any{"$ref": "#/parameters/" + paramKey})
 			}
 			if meth != "get" {
 				if r.Chance(50) {
@@ -785,7 +793,7 @@ func c17Random(r *Rng) C17Case {
 				resps["200"].(map[string]any)["headers"] = map[string]any{"X-Rate": h}
 			}
 			if _, ok := doc["responses"]; ok && r.Chance(40) {
-				resps["404"] = map[string]any{"$ref": "#/responses/NotFound"}
+				resps["404"] = map[string]any{"$ref": "#/responses/" + respKey}
 			}
 			op["responses"] = resps
 			item[meth] = op
